@@ -190,7 +190,30 @@ def h_map_get(ex, name, args, path, depth, caller):
         yield from fork(ex, path, m.has_key(k), lambda: some(RefV(m.token(k))), NONE)
         return
     has, val = m.lookup(key)
+    # insertions made on this path (BTreeMap::insert on a symbolic map): the latest matching one wins
+    ov = path.stores.get((m.path, "overrides")) if isinstance(m, MapV) else None
+    if ov:
+        kt = m.key_term(key)
+        if not isinstance(val, FloatV):
+            raise Unsupported("lookup in an updated map whose values are not numbers")
+        for k_i, v_i in ov:
+            has = z3.Or(kt == k_i, has)
+            val = FloatV(z3.If(kt == k_i, v_i.t, val.t), z3.BoolVal(False))
     yield from fork(ex, path, has, lambda: some(RefV(val)), NONE)
+
+
+def h_map_insert_sym(ex, name, args, path, depth, caller):
+    """BTreeMap::insert on a symbolic configuration map with number values: recorded in the path"""
+    m = get_map(ex, args[0])
+    if not isinstance(m, MapV):
+        return NotImplemented
+    key, v = deref(args[1]), deref(args[2])
+    if not isinstance(v, FloatV):
+        raise Unsupported("insert of %r into a symbolic map" % (v,))
+    kt = m.key_term(key)
+    old = list(path.stores.get((m.path, "overrides")) or [])
+    p2 = path.store(m.path, "overrides", "map", old + [(kt, v)])
+    return ex.ret(p2, OpaqueV("previous value"))
 
 
 def h_to_string(ex, name, args, path, depth, caller):
@@ -1000,7 +1023,8 @@ def h_captures_name(ex, name, args, path, depth, caller):
     if not isinstance(cap, CapturesV) or not (isinstance(g, StrV) and g.is_concrete()):
         raise Unsupported("Captures::name on %r" % (cap,))
     has, text = cap.group(g.t)
-    yield from fork(ex, path, has, lambda: some(StrV(text)), NONE)
+    preset = getattr(cap, "preset", {}).get(g.t)
+    yield from fork(ex, path, has, lambda: some(preset if preset is not None else StrV(text)), NONE)
 
 
 def h_match_as_str(ex, name, args, path, depth, caller):
@@ -2358,6 +2382,10 @@ def h_option_as_ref(ex, name, args, path, depth, caller):
         yield Outcome("return", p, some(RefV(payload) if not isinstance(payload, RefV) else payload) if is_some else NONE)
 
 
+def install_map_updates(ex):
+    ex.handlers.insert(0, (re.compile(r"^BTreeMap::<Rc<(types::)?CurrencyInfo>, f64>::insert$"), h_map_insert_sym))
+
+
 def install_phrases(ex):
     def add(rx, fn):
         ex.handlers.insert(0, (re.compile(rx), fn))
@@ -2367,3 +2395,91 @@ def install_phrases(ex):
     add(r"^core::option::Option::<.*>::map_or::<.*>$", h_option_map_or)
     add(r"^core::str::<impl str>::(to_lowercase|to_uppercase)$|^alloc::str::<impl str>::(to_lowercase|to_uppercase)$", h_str_lower_sym)
     add(r"^core::fmt::rt::Argument::<'_>::new_\\w+::<.*>$", h_opaque)
+
+
+# ------------------------------------------------------------------ the number tokeniser's kernel (C08 / C02 / C13): written literals
+def h_str_replace_chars(ex, name, args, path, depth, caller):
+    """str::replace(pattern, to) on a written literal (DecStrV) with concrete pattern and replacement"""
+    v, pat, to = deref(args[0]), deref(args[1]), deref(args[2])
+    if not isinstance(v, DecStrV):
+        raise Unsupported("str::replace on %r" % (v,))
+    if not (isinstance(pat, StrV) and pat.is_concrete() and isinstance(to, StrV) and to.is_concrete()):
+        raise Unsupported("str::replace with a symbolic pattern on a written literal")
+    if pat.t == "":
+        raise Unsupported("str::replace with an empty pattern (inserts between all characters)")
+    if any(ch.isdigit() for ch in pat.t):
+        raise Unsupported("a separator that contains digits")
+    out, i, chars = [], 0, v.chars
+    n = len(pat.t)
+    while i < len(chars):
+        window = chars[i:i + n]
+        if len(window) == n and all(c[0] == "c" and c[1] == pat.t[j] for j, c in enumerate(window)):
+            out += [("c", ch) for ch in to.t]
+            i += n
+        else:
+            out.append(chars[i])
+            i += 1
+    yield Outcome("return", path, DecStrV(out))
+
+
+def h_parse_f64_written(ex, name, args, path, depth, caller):
+    """str::parse::<f64> on a written literal: [sign] digits [. digits] (at least one digit) is Ok(exact decimal value);
+    anything else (a second '.', a ',' ...) is Err - the documented grammar of f64::from_str without exponent/inf/nan"""
+    v = deref(args[0])
+    if not isinstance(v, DecStrV):
+        raise Unsupported("parse::<f64> on %r" % (v,))
+    chars = list(v.chars)
+    neg = False
+    if chars and chars[0][0] == "c" and chars[0][1] in "+-":
+        neg = chars[0][1] == "-"
+        chars = chars[1:]
+    dots = [i for i, c in enumerate(chars) if c == ("c", ".")]
+    ok = len(dots) <= 1 and all(c[0] == "d" or c == ("c", ".") for c in chars) and any(c[0] == "d" for c in chars)
+    if not ok:
+        yield Outcome("return", path, EnumV("Result", "Err", [OpaqueV("ParseFloatError")]))
+        return
+    dot = dots[0] if dots else len(chars)
+    ints, frac = [c[1] for c in chars[:dot]], [c[1] for c in chars[dot + 1:]]
+    val = z3.IntVal(0)
+    for d in ints:
+        val = val * 10 + d
+    val = z3.ToReal(val)
+    for i, d in enumerate(frac):
+        val = val + z3.ToReal(d) / (10 ** (i + 1))
+    yield Outcome("return", path, EnumV("Result", "Ok", [FloatV(-val if neg else val, z3.BoolVal(False))]))
+
+
+def h_from_str_radix(ex, name, args, path, depth, caller):
+    """i64::from_str_radix on a written literal of symbolic digits: Ok(value) when it fits i64, Err otherwise"""
+    v, radix = deref(args[0]), conc_int(deref(args[1]))
+    if not isinstance(v, DecStrV) or not all(c[0] == "d" for c in v.chars):
+        raise Unsupported("from_str_radix on %r" % (v,))
+    val = z3.IntVal(0)
+    for c in v.chars:
+        val = val * radix + c[1]
+    ok = val <= (1 << 63) - 1
+    yield from fork(ex, path, ok, lambda: EnumV("Result", "Ok", [IntV(val, 64, True)]), lambda: EnumV("Result", "Err", [OpaqueV("ParseIntError")]))
+
+
+def h_str_eq_written(ex, name, args, path, depth, caller):
+    a, b = deref(args[0]), deref(args[1])
+    if isinstance(a, StrV) and isinstance(b, StrV):
+        if a.is_concrete() and b.is_concrete():
+            r = z3.BoolVal(a.t == b.t)
+        else:
+            r = a.term() == b.term()
+        yield Outcome("return", path, z3.Not(r) if name.endswith("::ne") else r)
+        return
+    raise Unsupported("str comparison on %r" % (a,))
+
+
+def install_number_tokeniser(ex):
+    def add(rx, fn):
+        ex.handlers.insert(0, (re.compile(rx), fn))
+
+    install_time_tokeniser(ex)
+    add(r"^alloc::str::<impl str>::replace::<&str>$|^core::str::<impl str>::replace::<&str>$", h_str_replace_chars)
+    add(r"^core::str::<impl str>::parse::<f64>$", h_parse_f64_written)
+    add(r"^core::num::<impl i64>::from_str_radix$", h_from_str_radix)
+    add(r"^<(alloc::string::)?String as (core::ops::)?Index<(core::ops::)?RangeFull>>::index$", h_identity0)
+    add(r"^<str as PartialEq>::(eq|ne)$", h_str_eq_written)
